@@ -21,6 +21,22 @@ class Broken(Exception):
     """The machinery failed; never a verdict about the code."""
 
 
+class Crashed(Exception):
+    """The real code killed a recording process; the failure is already recorded."""
+
+
+def go_fatal(p):
+    """A fatal error of the Go runtime (not a panic a caller could recover) ended the process."""
+    return p.returncode not in (0, 1) and ("fatal error:" in p.stderr or "goroutine stack exceeds" in p.stderr or "VERIF-HANG:" in p.stderr)
+
+
+def fatal_text(p):
+    for l in p.stderr.splitlines():
+        if "fatal error:" in l or "goroutine stack exceeds" in l or "VERIF-HANG:" in l:
+            return l.strip()[:300]
+    return p.stderr[:300]
+
+
 def log(*a):
     print("[vcheck]", *a, file=sys.stderr, flush=True)
 
@@ -158,6 +174,22 @@ class Ctx:
         except subprocess.TimeoutExpired:
             raise Broken("replay timeout %s" % name)
         self._race_report(name, family, cmd, p, race)
+        if go_fatal(p):
+            # the real code killed the process (stack overflow, concurrent map access, deadlock ...): find the case
+            mark = os.path.join(self.scratch, name + ".mark")
+            env = dict(os.environ, VERIF_MARK=mark)
+            try:
+                p2 = subprocess.run(cmd, capture_output=True, text=True, timeout=timeout, env=env)
+            except subprocess.TimeoutExpired:
+                raise Broken("replay timeout (looking for the crashing case) %s" % name)
+            if not go_fatal(p2) or not os.path.exists(mark):
+                raise Broken("driver crashed in %s and the crash did not recur in order: %s" % (name, p.stderr[-1500:]))
+            self.failures.append({"family": family, "kind": "state", "payload": open(mark).read(), "site": "crash",
+                                  "input": "(see the replay file)", "expected": "a value or an error",
+                                  "observed": "the process died: " + fatal_text(p2), "stage": name, "race": race})
+            self.stages.append({"stage": name, "kind": "replay", "family": family, "cases": 0, "crashed": True, "wall_s": round(time.time() - t, 1)})
+            log("%s: the process died in the real code: %s" % (name, fatal_text(p2)[:200]))
+            return {"cases": 0, "mismatches": [], "crashed": True}
         if p.returncode not in (0, 1, 3) and not (race and p.returncode == 66):
             raise Broken("driver failed in %s (exit %d): %s" % (name, p.returncode, (p.stdout + p.stderr)[-2000:]))
         try:
@@ -174,7 +206,7 @@ class Ctx:
         for m in rep["mismatches"] + ([rep["hang"]] if rep.get("hang") else []):
             self.failures.append({"family": family, "kind": "state", "payload": m["state"], "site": m["site"],
                                   "input": m["input"], "expected": m["expected"], "observed": m["observed"],
-                                  "stage": name, "race": race})
+                                  "stage": name, "race": race, "cmd": cmd})
         self.stages.append({"stage": name, "kind": "replay", "family": family, "cases": rep["cases"],
                             "nontrivial": rep["nontrivial"], "skipped": rep["skipped"], "mismatches": rep["mismatch_count"],
                             "by_site": rep["by_site"], "by_sub": rep.get("by_sub", {}), "wall_s": round(time.time() - t, 1)})
@@ -205,6 +237,13 @@ class Ctx:
         except subprocess.TimeoutExpired:
             raise Broken("recorder timeout %s" % name)
         self._race_report(name, family, cmd, p, race)
+        if go_fatal(p) or p.returncode == 5:
+            # the real code killed the recording process, or an evaluation never returned (exit 5 of the watchdog)
+            self.failures.append({"family": family, "kind": "crashcmd", "payload": json.dumps({"cmd": cmd, "env": env_extra or {}}), "site": "crash",
+                                  "input": " ".join(cmd[1:]), "expected": "a value or an error",
+                                  "observed": "the process died: " + fatal_text(p), "stage": name, "race": race})
+            log("%s: the recording process died in the real code: %s" % (name, fatal_text(p)[:200]))
+            raise Crashed()
         if p.returncode != 0 and not (race and p.returncode == 66):
             raise Broken("recorder failed in %s (exit %d): %s" % (name, p.returncode, (p.stdout + p.stderr)[-2000:]))
         n = sum(1 for l in open(outp, encoding="utf-8").read().split("\n") if l)
@@ -307,6 +346,14 @@ class Ctx:
                 if "WARNING: DATA RACE" in p.stderr:
                     return True
             return False
+        if f["kind"] == "crashcmd":
+            d = json.loads(f["payload"])
+            d["cmd"][0] = fv
+            try:
+                p = subprocess.run(d["cmd"], capture_output=True, text=True, timeout=1800, env=dict(os.environ, **d["env"]))
+            except subprocess.TimeoutExpired:
+                return False
+            return go_fatal(p) or p.returncode == 5
         if f["kind"] == "state":
             sf = os.path.join(self.scratch, "confirm.state")
             open(sf, "w").write(f["payload"])
@@ -314,9 +361,17 @@ class Ctx:
                 p = subprocess.run([fv, "one", f["family"], sf], capture_output=True, text=True, timeout=120)
             except subprocess.TimeoutExpired:
                 return True   # reproducible hang
-            if p.returncode == 1:
+            if p.returncode == 1 or go_fatal(p):
                 return True
             if p.returncode == 0:
+                if f["site"] == "hang" and f.get("cmd"):
+                    # not a hang on its own: a hang that needs what ran before it recurs when the cases run in order
+                    cmd = [fv] + f["cmd"][1:4] + ["-workers", "1"]
+                    try:
+                        p = subprocess.run(cmd, capture_output=True, text=True, timeout=3600)
+                    except subprocess.TimeoutExpired:
+                        return False
+                    return p.returncode == 3
                 return False
             raise Broken("confirmation run failed: " + p.stdout + p.stderr)
         else:
@@ -417,6 +472,12 @@ def main(pid, tier, run):
     code = 2
     try:
         code = run(ctx)
+    except Crashed:
+        try:
+            code = ctx.finish("the check stopped where the real code killed the process")
+        except Broken as e:
+            print("BROKEN property=%s %s" % (pid, e), file=sys.stderr)
+            code = 2
     except Broken as e:
         print("BROKEN property=%s %s" % (pid, e), file=sys.stderr)
         code = 2
